@@ -537,6 +537,19 @@ func (c *w3ctx) stmt(s ast.Stmt, inList bool) {
 			pre = append(pre, c.lhs(l, x.Tok)...)
 		}
 		c.exprs(x.Rhs)
+		if !inList && len(pre) > 0 && x.Tok == token.ASSIGN && len(x.Lhs) == len(x.Rhs) {
+			// `if x = f(); cond` and friends: no room for a statement in front, so the
+			// write is recorded by an extra operand of a tuple assignment, which Go
+			// evaluates (left to right) before f() and before anything is assigned:
+			//   _, x = simrt.Wd(&x, size, site), f()
+			var ops []string
+			for _, p := range pre {
+				ops = append(ops, strings.TrimSuffix(strings.Replace(p, "simrt.W(", "simrt.Wd(", 1), ";"))
+			}
+			c.fc.insert(c.off(s.Pos()), strings.Repeat("_, ", len(ops)), stmtPrio)
+			c.fc.insert(c.off(x.TokPos)+1, " "+strings.Join(ops, ", ")+",", stmtPrio)
+			return
+		}
 		c.emitBefore(s, pre, inList)
 	case *ast.IncDecStmt:
 		c.emitBefore(s, c.lhs(x.X, token.ASSIGN), inList)
